@@ -134,7 +134,15 @@ func operandFor(r *vf.Rng, op byte, idx int) *big.Int {
 		xs := []int64{0, 1, 2, 7, 8, 15, 16, 29, 30, 31, 32, 33, 63, 64, 127, 128, 254, 255, 256, 257, 300, 1 << 20}
 		return big.NewInt(xs[r.Intn(len(xs))])
 	}
+	signedEdge := func() *big.Int {
+		xs := []*big.Int{pow2(255), new(big.Int).Sub(pow2(255), big.NewInt(1)), new(big.Int).Add(pow2(255), big.NewInt(1)),
+			new(big.Int).Sub(pow2(256), big.NewInt(1)), big.NewInt(0), big.NewInt(1), new(big.Int).Sub(pow2(256), big.NewInt(2))}
+		return new(big.Int).Set(xs[r.Intn(len(xs))])
+	}
+	signedOp := op == 0x05 || op == 0x07 || op == 0x12 || op == 0x13 || (op == 0x1d && idx == 1) || (op == 0x0b && idx == 1)
 	switch {
+	case signedOp && r.Chance(35):
+		return signedEdge()
 	case (op == 0x1b || op == 0x1c || op == 0x1d || op == 0x0b || op == 0x1a) && idx == 0 && r.Chance(70):
 		return small()
 	case op == 0x0a && idx == 1 && r.Chance(60):
